@@ -91,6 +91,7 @@ class World:
         self.L = self.shim.listener
         self.selected = []
         self.dead_task = None
+        self.re_count = {}                                           # (level, event kind, action, connection) -> times the re-entrant listener acted
 
     def idx(self, con):
         for i, c in enumerate(self.cons):
@@ -137,6 +138,8 @@ class World:
                 sp = self.chk.beh.get(("con", name))
                 if sp is not None:
                     con.addListener(cls, self.chk.beh_listener("con", name, sp), priority=-10, once=sp in self.chk.ONCE_SPELLINGS)
+                for lv, ev, act in self.chk.re:                      # re-entrant listeners on the Connection itself (case["re"])
+                    if lv == "con" and ev == name: con.addListener(cls, self.chk.re_listener("con", name, act), priority=5)
         unp = list(con.unpackers)
         def wrap(u, ty):
             def f(raw, offset=0):
@@ -264,14 +267,15 @@ class C09(Check):
                    "being the LAST one on the nexus; listeners on the Connection object are modelled as having no effect (the correspondence run checks that, for every "
                    "spelling of halt / unsubscribe / raise); a halting listener that also re-enters the controller is not covered",
                    "the default OpenFlowConnectionArbiter (nexus = core.openflow); miss_send_len and clear_flows_on_connect at their defaults",
-                   "fewer than 2^31 xids drawn per run; every ofp_error message carries data; a read() delivers whole messages (framing is C02)",
+                   "fewer than 2^31 xids drawn per run; every ofp_error message carries data; framing itself is C02's business, but how the switch's bytes are cut into reads is a case parameter here (`seg`): the model is told the messages, the oracle demands that the connection handles exactly the messages that arrived, in order, once each",
+                   "re-entrant lifecycle calls (disconnect / close / send / sendToDPID) from listeners of every event kind on either level (case parameter `re`) are model-compared only when made from ConnectionDown listeners as disconnect / close / send (model answer: no effect); from the other listeners they are checked by the oracle only (the listener model Model/ConnL.lean has ConnectionUp / ConnectionDown listeners on the nexus only; a general one needs a small-step machine with a control stack)",
                    "on a tree with the commit of C09-5 reverted (variant v = false, detected by probing) registry_exact_partial_v assumes each connection's features replies name one datapath id; on the tree as it stands it is unconditional"]
     rule = ("case = history of {connect, recv(c, batch of messages), lose(c, eof|select-error), disc(c), sockfail(c), sendto(d)} over <= 4 connections, "
             "datapath ids {5,6,7} and the edge ids {0, 1, 2^63, 2^64-1} (every hand-written, loss-point and 2-connection history is repeated with them, half of the generated ones use them); corpus = 19 hand-written histories (D3, orphan, dpid change, wrong xid, send errors...), loss at each of 6 points of the handshake "
             "x {eof, select error, disconnect(), send error} x {alone, beside a live connection of the same datapath} x 2 batchings, every interleaving of the 4 handshake "
             "messages (both finishing variants) with <= 2 insertions of {port_status, echo_request, packet_in, error(other xid), error(other code)}, all 24 orders of the 4 "
             "handshake messages with <= 1 insertion, every connect/up/lose order of 2 connections; generated = sampled 3-insertion interleavings and 3-connection orders "
-            "(exhaustive in the thorough tier) + seeded random histories (30% with neighbouring reads / EOFs / accepts merged into ONE select round); + all 70 interleavings of two connections' handshakes (x same/different datapath x both finishing variants), 22 hand-written multi-event select rounds (error list + readable list, both orders, accept next to data, the new connection's barrier reply next to the stale one's EOF), the API called positionally / by keyword / with a message object, and the hand-written + sampled interleaved / round histories again behind a prelude that burns 260 xids (every xid above 256); + ~690 of the hand-written / loss-point / 2-connection histories re-run with re-entrant application listeners (7 listener behaviours; compared with the listener model runL); + the error sweep: at each of the 3 positions between hello and the barrier answer an ERROR of every (type, code) (3x3 in the quick corpus, 6x9 in the thorough tier) with xid in {0, the barrier's, the features request's, barrier+-1, 2^31-1, 2^32-1}, and every other kind of message (echo request / reply, packet-in, port status, desc stats reply, hello, barrier replies with those xids), followed by the real barrier reply; loss kinds now include an exception leaving read() (a message of a type nothing can unpack); + ~700 hand-written / interleaved histories run with NO nexus-level listener for some event kinds (raiseEvent returns None) or with a nexus listener that halts them; + ~2500 hand-written / loss-point / 2-connection / select-round histories run with a LAST listener on the nexus or on every Connection that halts / unsubscribes / raises on a lifecycle event (ConnectionUp, ConnectionDown: all 14 spellings — EventHalt, True, (), event.halt, EventHaltAndRemove, once=True, EventRemove, False, EventContinue, Exception, BaseException, ReventError — x both levels x every hand-written history; the other kinds and combinations in rotation; a third together with re-entrant listeners), a quarter of the generated histories likewise (nexus-level outcomes are model-compared through Model/ConnH.lean, connection-level ones must change nothing); non-trivial = at least one message was dispatched")
+            "(exhaustive in the thorough tier) + seeded random histories (30% with neighbouring reads / EOFs / accepts merged into ONE select round); + all 70 interleavings of two connections' handshakes (x same/different datapath x both finishing variants), 22 hand-written multi-event select rounds (error list + readable list, both orders, accept next to data, the new connection's barrier reply next to the stale one's EOF), the API called positionally / by keyword / with a message object, and the hand-written + sampled interleaved / round histories again behind a prelude that burns 260 xids (every xid above 256); + ~690 of the hand-written / loss-point / 2-connection histories re-run with re-entrant application listeners (7 listener behaviours; compared with the listener model runL); + the error sweep: at each of the 3 positions between hello and the barrier answer an ERROR of every (type, code) (3x3 in the quick corpus, 6x9 in the thorough tier) with xid in {0, the barrier's, the features request's, barrier+-1, 2^31-1, 2^32-1}, and every other kind of message (echo request / reply, packet-in, port status, desc stats reply, hello, barrier replies with those xids), followed by the real barrier reply; loss kinds now include an exception leaving read() (a message of a type nothing can unpack); + ~700 hand-written / interleaved histories run with NO nexus-level listener for some event kinds (raiseEvent returns None) or with a nexus listener that halts them; + ~2500 hand-written / loss-point / 2-connection / select-round histories run with a LAST listener on the nexus or on every Connection that halts / unsubscribes / raises on a lifecycle event (ConnectionUp, ConnectionDown: all 14 spellings — EventHalt, True, (), event.halt, EventHaltAndRemove, once=True, EventRemove, False, EventContinue, Exception, BaseException, ReventError — x both levels x every hand-written history; the other kinds and combinations in rotation; a third together with re-entrant listeners), a quarter of the generated histories likewise (nexus-level outcomes are model-compared through Model/ConnH.lean, connection-level ones must change nothing); + ~1800 segmentations of the switch's byte stream (case parameter `seg` of a read: every single cut message x offset {1, 4, 8, 9, middle, last byte} and sampled pairs of cuts in 5 handshake / early-port-status histories whose reads hold several messages; 1-, 7-, 8-, 9-, 13-, 64-byte reads and rotating cuts over the hand-written / loss-point / two-connection histories, some with halting or re-entrant listeners; a 40-message burst read with the real 2048-byte limit); + ~2100 histories with re-entrant lifecycle calls from listeners (case parameter `re` = [[level, event kind, action]]: disconnect / close / send / sendToDPID from a listener of every lifecycle event kind on the nexus and on the Connection over every hand-written history, the other event kinds and combinations in rotation over loss-point / two-connection / select-round histories, some with halting listeners and segmentation); 30% of the generated histories get random cuts, 20% random re-entrant listeners; oracle clauses added: the messages a connection handles are exactly those that arrived, in order, once each (arrival:*), and a live connection whose barrier answer arrives IS announced (up:missing); non-trivial = at least one message was dispatched")
 
     def setup(self):
         self.core = poxenv.boot()
@@ -288,6 +292,7 @@ class C09(Check):
         # case["beh"]: {"nexus": {event kind: spelling}, "con": {event kind: spelling}} = what the LAST listener of that kind on that level does with
         # the event (halt it / unsubscribe / raise ...: BEH_SPELLINGS); installed per case by install_beh, after the recorders
         self._beh_eids = []
+        self._re_eids, self.re = [], []
         # re-entrant application listeners (run after the recorders); what they do is part of the case: case["listeners"]
         self.listeners = {}
         nexus.addListener(of_01.ConnectionUp, self.app_listener("up"))
@@ -450,16 +455,56 @@ class C09(Check):
             elif act == "disc":
                 ev.connection.disconnect()
             elif act == "sendto":
-                d = ev.dpid
-                # the connection most recently registered under d, if it is live now (what registry_exact says the entry is)
-                exp = None
-                for e in w.log:
-                    if e[0] == "reg" and e[1] == d: exp = e[2]
-                if exp is not None and (w.cons[exp].disconnected or w.cons[exp].connect_time is None or w.cons[exp].dpid != d): exp = None
-                exp_ok = exp is not None and not w.socks[exp].broken
-                ret = w.nexus.sendToDPID(d, hdr(T_BARRIER_REQ, 8, x))
-                w.log.append(["hsendto", which, i, d, x, bool(ret), exp, exp_ok])
+                chk.listener_sendto(w, which, i, ev.dpid, x)
         return h
+
+    @staticmethod
+    def listener_sendto(w, which, i, d, x):
+        """sendToDPID(d, <barrier request x>) from inside a listener, with what the registry clause predicts for it at this moment"""
+        # the connection most recently registered under d, if it is live now (what registry_exact says the entry is)
+        exp = None
+        for e in w.log:
+            if e[0] == "reg" and e[1] == d: exp = e[2]
+        # (registered = its handshake is complete: `_connect` is logged; it need not have been announced yet when a ConnectionHandshakeComplete listener asks)
+        if exp is not None and (w.cons[exp].disconnected or w.cons[exp].dpid != d): exp = None
+        exp_ok = exp is not None and not w.socks[exp].broken
+        ret = w.nexus.sendToDPID(d, hdr(T_BARRIER_REQ, 8, x))
+        w.log.append(["hsendto", which, i, d, x, bool(ret), exp, exp_ok])
+
+    # ---- re-entrant lifecycle calls from listeners of ANY event kind on either level: case["re"] = [[level, event kind, action], ...]
+    # action: "disc" = event.connection.disconnect(), "close" = .close(), "send" = .send(<barrier request 7000+c>),
+    # "sendto" = core.openflow.sendToDPID(connection.dpid, <barrier request 7000+c>).  A listener acts at most RE_LIMIT times per connection
+    # (an application's shared release routine; and a change that re-raises the event must not make the harness recurse without end).
+    RE_ACTS = ("disc", "close", "send", "sendto")
+    RE_LIMIT = 2
+
+    def re_listener(self, level, name, act):
+        chk = self
+        def h(ev):
+            w = chk.sink[0]
+            if w is None: return
+            con = ev.connection
+            i = w.idx(con)
+            key = (level, name, act, i)
+            if w.re_count.get(key, 0) >= chk.RE_LIMIT: return
+            w.re_count[key] = w.re_count.get(key, 0) + 1
+            w.log.append(["hact", level, name, i, act])
+            if act == "disc": con.disconnect()
+            elif act == "close": con.close()
+            elif act == "send": con.send(hdr(T_BARRIER_REQ, 8, 7000 + i))
+            elif act == "sendto": chk.listener_sendto(w, "re", i, con.dpid, 7000 + i)
+        return h
+
+    def install_re(self, case):
+        self.re = [tuple(x) for x in case.get("re") or []]
+        nexus = self.core.openflow
+        for lv, name, act in self.re:
+            if lv == "nexus":
+                self._re_eids.append(nexus.addListener(getattr(self.of_01, name), self.re_listener("nexus", name, act), priority=5))
+
+    def remove_re(self):
+        for eid in self._re_eids: self.core.openflow.removeListener(eid)
+        self._re_eids, self.re = [], []
 
     def recorder(self, where, name):
         chk = self
@@ -528,11 +573,12 @@ class C09(Check):
                         for m in it.get("msgs", []): self.msg_bytes(m, 0)
             if op["op"] == "sendto" and op.get("obj"):
                 o = self.of.ofp_barrier_request(); o.xid = op["x"]; self._objs[op["x"]] = o
-        self.remove_beh(); self.set_muted([])                        # (nothing left over from a case that ended in an exception)
+        self.remove_beh(); self.remove_re(); self.set_muted([])     # (nothing left over from a case that ended in an exception)
         w = World(self)
         self.listeners = dict(case.get("listeners") or {})
         self.set_muted(case.get("mute") or [])
         self.install_beh(case)                                       # (the connection-level ones are attached at accept time)
+        self.install_re(case)
         steps, resolved, regs, states = [], [], [], []
         for op in case["ops"]:
             mark = len(w.log)
@@ -540,18 +586,15 @@ class C09(Check):
             if k == "connect":
                 w.connect(); resolved.append({"op": "connect"})
             elif k == "recv":
-                c, data = op["c"], b""
+                c, parts = op["c"], []
                 snap = list(w.log)
                 for m in op["msgs"]:
                     x = self.resolve_x(m.get("x", 0), c, snap)
-                    b = self.msg_bytes(m, x)
-                    if len(data) + len(b) > 2048:                    # one read() takes at most 2048 bytes: split at a message boundary
-                        if c < len(w.cons): w.recv(c, data)
-                        data = b""
-                    data += b
+                    parts.append(self.msg_bytes(m, x))
                     r = dict(m); r["x"] = x; r.pop("r", None); r["op"] = "msg"; r["c"] = c
                     resolved.append(r)
-                if c < len(w.cons): w.recv(c, data)
+                if c < len(w.cons):
+                    for chunk in self.chunks(parts, op.get("seg")): w.recv(c, chunk)
             elif k == "round":
                 # several events in one select round; the task handles the error list first, then the readable ones in order
                 snap = list(w.log)
@@ -604,9 +647,41 @@ class C09(Check):
             if w.dead_task: break
         nx = self.of.generate_xid()
         w.finish()
-        self.listeners = {}; self.remove_beh(); self.set_muted([])
+        self.listeners = {}; self.remove_beh(); self.remove_re(); self.set_muted([])
         return {"steps": steps, "resolved": resolved, "regs": regs, "states": states, "dead_task": w.dead_task,
                 "next_xid": nx, "nsteps": [self.nsteps(op) for op in case["ops"]]}
+
+    @staticmethod
+    def chunks(parts, seg):
+        """how the bytes of the messages of one recv op are cut into reads.  No `seg`: whole messages, as many per read as fit into the 2048 bytes one
+        recv() takes.  seg = {"every": n}: n bytes per read; seg = [[mi, off], ...]: a read ends `off` bytes into message mi ("m" = in the middle of
+        it, negative = counted from its end, 0 = in front of it); a read never has more than 2048 bytes"""
+        if not seg:
+            out, data = [], b""
+            for b in parts:
+                if data and len(data) + len(b) > 2048:
+                    out.append(data); data = b""
+                data += b
+            return out + [data]
+        data = b"".join(parts)
+        if isinstance(seg, dict):
+            n = max(1, int(seg["every"]))
+            cuts = set(range(n, len(data), n))
+        else:
+            cuts, starts, o = set(), [], 0
+            for b in parts: starts.append(o); o += len(b)
+            for mi, off in seg:
+                if not 0 <= mi < len(parts): continue
+                L = len(parts[mi])
+                k = L // 2 if off == "m" else (L + off if off < 0 else off)
+                cuts.add(starts[mi] + max(0, min(L, k)))
+        out, last = [], 0
+        for p in sorted(cuts) + [len(data)]:
+            if p <= last or p > len(data): continue
+            while p - last > 2048:
+                out.append(data[last:last + 2048]); last += 2048
+            out.append(data[last:p]); last = p
+        return out
 
     @staticmethod
     def round_norm(op, outs):
@@ -633,7 +708,13 @@ class C09(Check):
                 if m["m"] == "features_reply": ds.add(m["d"])
         return sorted(ds)
 
+    # re-entrant calls the model has an answer for without being told: on a ConnectionDown (either level) the connection is already
+    # disconnected and its ConnectionDown marked as raised, so disconnect() / close() / send() from there change nothing observable
+    MODEL_NOOP_RE = {("ConnectionDown", "disc"), ("ConnectionDown", "close"), ("ConnectionDown", "send")}
+
     def model_request2(self, case, obs):
+        if any((ev, act) not in self.MODEL_NOOP_RE for _, ev, act in case.get("re") or []):
+            return None                                              # other re-entrant listeners: oracle only (the model has no such listeners)
         req = {"ops": obs["resolved"], "dpids": self.dpids_of(case),
                "cfg": {"d3": True, "down": True, "read": True, "err": True, "dpid": self.variant["dpid"]}}
         ls = case.get("listeners")
@@ -647,7 +728,7 @@ class C09(Check):
     def impl_view(self, case, obs):
         if obs.get("dead_task"): return {"dead_task": obs["dead_task"]}
         final = obs["regs"][-1] if obs["regs"] else []
-        return {"steps": [self.round_norm(op, [e for e in st if e[0] not in ("in", "hsendto", "beh")]) for op, st in zip(case["ops"], obs["steps"])],
+        return {"steps": [self.round_norm(op, [e for e in st if e[0] not in ("in", "hsendto", "beh", "hact")]) for op, st in zip(case["ops"], obs["steps"])],
                 "reg": [[d, dict((k, v) for k, v in final if k is not None).get(d)] for d in self.dpids_of(case)],
                 "regnone": dict((str(k), v) for k, v in final).get("None"),
                 "conns": obs["states"][-1] if obs["states"] else [], "next_xid": obs["next_xid"]}
@@ -1015,9 +1096,134 @@ class C09(Check):
                 if (j + t) % 3 == 0: c2 = self.with_listeners(c2, lsn[(j + t) % len(lsn)])
                 yield c2
 
+    # ------------------------------------------------------------------ segmentations of the switch's byte stream
+    SEG_OFFS = (1, 4, 8, 9, "m", -1)                                 # a read ends inside the header / right behind it / inside the body / one byte short
+
+    @staticmethod
+    def with_seg(case, pick, tag="/seg"):
+        """the same history with the bytes of its reads cut differently: pick(j, op) -> seg for the j-th recv op (or None)"""
+        ops, j = [], 0
+        for o in case["ops"]:
+            if o["op"] == "recv":
+                sg = pick(j, o); j += 1
+                if sg: o = dict(o, seg=sg)
+            ops.append(o)
+        c = dict(case); c["ops"] = ops; c["tag"] = case.get("tag", "") + tag
+        return c
+
+    def seg_bases(self):
+        """handshake / early-port-status / lifecycle histories whose reads hold several messages"""
+        M, C = self.M, {"op": "connect"}
+        def S(d, x): return {"op": "sendto", "d": d, "x": x}
+        for fin in ("barrier", "error"):
+            for ps in ((41, 42), (41, 42, 43, 44)):
+                # early port-status in the read of the features reply AND in the read of the barrier answer; more messages behind it
+                m = self.hs_msgs(5, fin)
+                ops = [C, {"op": "recv", "c": 0, "msgs": m[:3] + [M("port_status", x, r=x % 3) for x in ps]},
+                       {"op": "recv", "c": 0, "msgs": [M("port_status", 45, r=1), M("echo_request", 46), M("port_status", 47, r=2), m[3], M("port_status", 48), M("packet_in", 49)]},
+                       S(5, 900), {"op": "recv", "c": 0, "msgs": [M("port_status", 50, r=1), M("packet_in", 51), M("port_status", 52, r=2)]},
+                       {"op": "lose", "c": 0}, S(5, 901)]
+                yield {"ops": ops, "tag": "seg-handshake"}
+        yield {"ops": [C] + self.up_ops(0, 5, ps=(41,)) + [C] + self.up_ops(1, 5, "error", ps=(42, 43)) + [S(5, 1), {"op": "lose", "c": 0}, S(5, 2),
+               {"op": "recv", "c": 1, "msgs": [M("port_status", 44), M("features_reply", 3, d=6), M("port_status", 45)]}, S(5, 3), S(6, 4), {"op": "lose", "c": 1, "via": "err"}], "tag": "seg-reconnect"}
+        for c in self.specials(): yield c
+        for c in list(self.loss_points())[1::4]: yield c
+        for c in self.orders(2, [(5, 5), (5, 6)], [("eof", "err"), ("disc", "senderr")]): yield c
+
+    def segment_cases(self):
+        """HARDENING 16: how the switch's bytes are cut into reads is an input.  Every single cut (message x offset) and every pair of cuts in the
+        handshake histories; fixed read sizes (1, 7, 8, 9, 13, 64 bytes) and rotating cuts over the hand-written / loss-point / two-connection
+        histories; some with halting or re-entrant listeners.  The model's answer does not depend on the cuts (it is told the messages)."""
+        bases = list(self.seg_bases())
+        nhs = 5
+        for b, c in enumerate(bases[:nhs]):
+            recvs = [o for o in c["ops"] if o["op"] == "recv"]
+            singles = [(j, mi, off) for j, o in enumerate(recvs) for mi in range(len(o["msgs"])) for off in self.SEG_OFFS]
+            for (j, mi, off) in singles:
+                yield self.with_seg(c, lambda jj, o, j=j, mi=mi, off=off: [[mi, off]] if jj == j else None)
+            for t, ((j1, m1, o1), (j2, m2, o2)) in enumerate(itertools.combinations(singles, 2)):
+                if (t + b) % 23 == 0 and (j1, m1) != (j2, m2):
+                    yield self.with_seg(c, lambda jj, o, a=(j1, m1, o1), b_=(j2, m2, o2): [[x[1], x[2]] for x in (a, b_) if x[0] == jj] or None)
+        sizes = (7, 8, 9, 13, 64)
+        lsn = list(self.LISTENERS) + [{"up": "disc"}]
+        for b, c in enumerate(bases):
+            if b < nhs or b % 9 == 0: yield self.with_seg(c, lambda jj, o: {"every": 1}, "/seg1")
+            yield self.with_seg(c, lambda jj, o, n=sizes[b % len(sizes)]: {"every": n})
+            for t in range(2):
+                # in every read with several messages: one cut inside a message that is not the first, a second one somewhere else
+                def pick(jj, o, t=t, b=b):
+                    n = len(o["msgs"])
+                    if n < 2: return [[0, self.SEG_OFFS[(b + jj + t) % 6]]] if (b + jj + t) % 3 == 0 else None
+                    sg = [[1 + (b + jj + 3 * t) % (n - 1), (8, "m", -1, 9)[(b + jj + t) % 4]]]
+                    if (b + jj) % 2: sg.append([(b + t) % n, self.SEG_OFFS[(b + 2 * jj + t) % 6]])
+                    return sg
+                c2 = self.with_seg(c, pick)
+                if (b + t) % 5 == 0: c2 = self.with_listeners(c2, lsn[(b + t) % len(lsn)])
+                if (b + t) % 7 == 0: c2 = self.with_beh(c2, {"nexus": {"PortStatus": "halt"}} if b % 2 else {"con": {"ConnectionUp": "haltremove", "PortStatus": "raise"}})
+                yield c2 if (b + t) % 4 else self.remap(c2, self.DPID_MAPS[(b + t) % 3])
+        # the burst of a switch with many messages read with the real 2048-byte limit, cutting through whatever is there
+        m = self.hs_msgs(5)
+        burst = m[:3] + [self.M("port_status", 100 + j, r=j % 3) for j in range(40)]
+        yield {"ops": [{"op": "connect"}, {"op": "recv", "c": 0, "msgs": burst, "seg": {"every": 2048}}, {"op": "recv", "c": 0, "msgs": [self.M("port_status", 150), m[3]] +
+               [self.M("packet_in", 200 + j) if j % 3 else self.M("port_status", 200 + j) for j in range(70)], "seg": {"every": 2048}}, {"op": "sendto", "d": 5, "x": 1}, {"op": "lose", "c": 0}], "tag": "seg-burst"}
+
+    # ------------------------------------------------------------------ re-entrant lifecycle calls from listeners of every event kind
+    def with_re(self, case, re_, tag="/re"):
+        c = dict(case); c["re"] = [list(x) for x in re_]; c["tag"] = case.get("tag", "") + tag
+        return c
+
+    def reentrant_cases(self):
+        """HARDENING 5/16: what a listener does is an input.  disconnect() / close() / send() / sendToDPID() called from inside a listener of every
+        lifecycle event kind (and of the other kinds, in rotation) on the nexus and on the Connection, over the hand-written, loss-point,
+        two-connection and select-round histories.  The exactly-once clauses apply unchanged.  Model-compared when all the calls are made from
+        ConnectionDown listeners and are disconnect / close / send (the model's answer: nothing changes); oracle only otherwise."""
+        M, C = self.M, {"op": "connect"}
+        def S(d, x): return {"op": "sendto", "d": d, "x": x}
+        life = [C] + self.up_ops(0, 5, ps=(41, 42)) + [{"op": "recv", "c": 0, "msgs": [M("port_status", 43), M("packet_in", 44), M("features_reply", 3, d=5), M("port_status", 45)]},
+                S(5, 1), C] + self.up_ops(1, 5, "error", mode=0, ps=(46,)) + [S(5, 2), {"op": "lose", "c": 0}, S(5, 3), {"op": "disc", "c": 1}, S(5, 4), {"op": "lose", "c": 1, "via": "err"}, S(5, 5)]
+        specials = [{"ops": life, "tag": "lifecycle"}] + list(self.specials())
+        singles = [[[lv, ev, act]] for ev in self.LIFECYCLE for lv in ("nexus", "con") for act in self.RE_ACTS if not (lv == "con" and ev == "ConnectionHandshakeComplete")]
+        others = [[[lv, ev, act]] for ev in ("PacketIn", "ErrorIn", "BarrierIn", "RawStatsReply", "SwitchDescReceived") for lv in ("nexus", "con") for act in self.RE_ACTS]
+        combos = [[[lv, ev, act] for ev in ("ConnectionUp", "ConnectionDown", "FeaturesReceived", "PortStatus") for lv in lvs] for act in self.RE_ACTS for lvs in (("nexus",), ("con",), ("nexus", "con"))] + \
+                 [[["nexus", "ConnectionDown", a], ["con", "ConnectionDown", b]] for a in ("disc", "close", "send") for b in ("disc", "close", "send")] + \
+                 [[["nexus", "ConnectionUp", "sendto"], ["con", "ConnectionDown", "close"]], [["con", "PortStatus", "close"], ["nexus", "ConnectionDown", "disc"]],
+                  [["nexus", "PortStatus", "disc"], ["nexus", "ConnectionDown", "close"], ["con", "ConnectionDown", "disc"]]]
+        for j, c in enumerate(specials):
+            for t, r in enumerate(singles + combos):
+                c2 = self.with_re(c, r)
+                yield c2 if (j + t) % 4 else self.remap(c2, self.DPID_MAPS[(j + t) % 3])
+            for t, r in enumerate(others):
+                if (j + t) % 4 == 0: yield self.with_re(c, r)
+        wide = list(self.loss_points())[::3] + list(self.orders(2, [(5, 5), (5, 6)], [("eof", "err"), ("disc", "senderr")])) + list(self.rounds()) + \
+               list(self.interleaved_handshakes())[::9] + list(self.seg_bases())[:3]
+        pool = singles + combos + others[::3]
+        sp = sorted(self.BEH_SPELLINGS)
+        for j, c in enumerate(wide):
+            for t in range(3):
+                c2 = self.with_re(c, pool[(5 * j + 11 * t) % len(pool)])
+                if (j + t) % 4 == 0: c2 = self.with_beh(c2, {("nexus", "con")[j % 2]: {self.LIFECYCLE[(j + t) % 5]: sp[(j + 3 * t) % len(sp)]}})
+                if (j + t) % 5 == 0: c2 = self.with_listeners(c2, self.LISTENERS[(j + t) % len(self.LISTENERS)])
+                if (j + t) % 6 == 0: c2 = self.with_seg(c2, lambda jj, o, j=j: [[len(o["msgs"]) - 1, (8, "m", -1)[(j + jj) % 3]]])
+                yield c2
+
+    def random_re(self, rng):
+        return [[rng.choice(["nexus", "nexus", "con"]), rng.choice(self.LIFECYCLE[:2] + self.LIFECYCLE + EVENTS), rng.choice(self.RE_ACTS)] for _ in range(rng.choice([1, 1, 2, 3]))]
+
+    @staticmethod
+    def random_seg(rng):
+        r = rng.random()
+        if r < 0.25:
+            n = rng.choice([1, 3, 7, 8, 9, 16, 31, 64, 100])
+            return lambda jj, o: {"every": n}
+        def pick(jj, o):
+            n = len(o["msgs"])
+            if rng.random() < 0.3: return None
+            return [[rng.randrange(n), rng.choice(C09.SEG_OFFS + (0, 2, 7, 12, 16, -2, -8))] for _ in range(rng.choice([1, 1, 2, 3]))]
+        return pick
+
     def corpus(self):
         cases = list(self._corpus())
-        return cases + list(self.listener_cases()) + list(self.quiet_cases()) + list(self.halting_cases())
+        return cases + list(self.listener_cases()) + list(self.quiet_cases()) + list(self.halting_cases()) + list(self.segment_cases()) + list(self.reentrant_cases())
 
     def _corpus(self):
         cases = list(self.specials())
@@ -1087,6 +1293,8 @@ class C09(Check):
             if c.get("tag", "").startswith("random") and rng.random() < 0.15:
                 c = self.with_listeners(c, self.LISTENERS[rng.randrange(len(self.LISTENERS))])
             if rng.random() < 0.25: c = self.with_beh(c, self.random_beh(rng))
+            if rng.random() < 0.3: c = self.with_seg(c, self.random_seg(rng))
+            if rng.random() < 0.2: c = self.with_re(c, self.random_re(rng))
             yield c
 
     def random_beh(self, rng):
@@ -1118,13 +1326,26 @@ class C09(Check):
         for c in self.loss_points(): yield c
         for i, c in enumerate(self.halting_cases()):
             if i % 5 == 0: yield c
+        for i, c in enumerate(self.segment_cases()):
+            if i % 3 == 0: yield c
+        for i, c in enumerate(self.reentrant_cases()):
+            if i % 3 == 0: yield c
         while True:
             c = self.random_case(rng, big=True)
             if rng.random() < 0.3: c = self.with_beh(c, self.random_beh(rng))
+            if rng.random() < 0.3: c = self.with_seg(c, self.random_seg(rng))
+            if rng.random() < 0.2: c = self.with_re(c, self.random_re(rng))
             yield self.remap(c, self.DPID_MAPS[rng.randrange(3)]) if rng.random() < 0.5 else c
 
     # ------------------------------------------------------------------ the property itself, on the implementation's observables
+    HSC_KEY = "down:before-up:handshake-complete-listener-drops"
+
     def oracle(self, case, obs):
+        f = self._oracle(case, obs)
+        # manual use only, while fixes/C09-7_handshake_complete_listener_drops.diff is not committed in the tree under test: look past that one finding
+        return f
+
+    def _oracle(self, case, obs):
         if obs.get("dead_task"): return "task:died " + obs["dead_task"]
         ops = case["ops"][:len(obs["steps"])]
         log = []                                                     # (op index, entry)
@@ -1140,6 +1361,18 @@ class C09(Check):
         # what the last nexus-level listener did with an event (log entry "beh", written when it fires): ConnectionUp halted for these connections;
         # per connection, the nexus-level PortStatus deliveries in order with whether each was halted
         up_halted, ps_nexus = set(), {i: [] for i in range(ncon)}
+        # ARRIVAL is what the switch wrote (obs["resolved"]: the messages of the history, per connection, in order), however the bytes were cut
+        # into reads; the messages the connection handled (log entry "in", written when one is unpacked) must be those, in that order, each once
+        type_of = {v: t for t, v in KIND_OF_TYPE.items()}
+        stream, handled = {i: [] for i in range(ncon)}, {i: 0 for i in range(ncon)}
+        rp = 0
+        for k, o in enumerate(ops):                                  # (a message for a connection that does not exist yet never arrives anywhere)
+            n = self.nsteps(o)
+            for r in obs["resolved"][rp:rp + n]:
+                if r["op"] == "msg" and k > 0 and r["c"] < len(obs["states"][k - 1]): stream[r["c"]].append((type_of[r["m"]], r["x"]))
+            rp += n
+        owed_up = {}                                                 # connection -> log position of the reply that completes its handshake
+        hdisc, hact_at = set(), {i: [] for i in range(ncon)}         # connections a re-entrant listener disconnected / closed; positions of listener actions
         disc_by, broken_by, d_, b_ = [], [], set(), set()
         for j, o in enumerate(ops):
             if o["op"] == "disc" and exists(j, o["c"]): d_ = d_ | {o["c"]}
@@ -1150,6 +1383,16 @@ class C09(Check):
             tag = e[0]
             if tag == "in":
                 i, ty, x, extra = e[1], e[2], e[3], e[4]
+                nxt = stream[i][handled[i]] if handled[i] < len(stream[i]) else None
+                if nxt != (ty, x):
+                    return "arrival:not-as-arrived connection %d handled a %s (xid %s) as its message #%d; the switch's message #%d is %s" % (
+                        i, KIND_OF_TYPE.get(ty, ty), x, handled[i] + 1, handled[i] + 1, "none: all its messages were handled already" if nxt is None else "a %s (xid %s)" % (KIND_OF_TYPE.get(nxt[0]), nxt[1]))
+                handled[i] += 1
+                if i in owed_up:
+                    return "up:missing connection %d got the answer to its barrier request after its features reply but was not announced" % i
+                if ("nexus", i) not in up_at and i in feat_in and barrier_sent.get(i) is not None and x == barrier_sent[i] and \
+                   (ty == T_BARRIER_REP or (ty == T_ERROR and extra == [1, 1])):
+                    owed_up[i] = pos
                 last_in[i] = (pos, ty, x, extra)
                 if ty == T_FEAT_REP and ("nexus", i) not in up_at:
                     feat_in[i] = pos; barrier_sent[i] = None; ps_window_start[i] = len(ps_in[i])
@@ -1157,7 +1400,8 @@ class C09(Check):
                 if ty == T_BARRIER_REP and i in feat_in and ("nexus", i) not in up_at and barrier_sent.get(i) is not None and x != barrier_sent[i]:
                     failed_connect.add(i)
             elif tag == "sent":
-                if e[2] == T_BARRIER_REQ and e[1] in feat_in and ("nexus", e[1]) not in up_at: barrier_sent[e[1]] = e[3]
+                # (barrier requests with xids 5000..7999 are written by this harness's own re-entrant listeners, not by the handshake)
+                if e[2] == T_BARRIER_REQ and e[1] in feat_in and ("nexus", e[1]) not in up_at and not 5000 <= e[3] < 8000: barrier_sent[e[1]] = e[3]
             elif tag in ("nexus", "con"):
                 name, i, arg = e[1], e[2], e[3]
                 if name == "ConnectionUp":
@@ -1166,6 +1410,7 @@ class C09(Check):
                         return "up:after-down ConnectionUp raised on %s for connection %d after its ConnectionDown" % (tag, i)
                     if tag == "con" and ("nexus", i) not in up_at: return "up:nexus-con-mismatch connection %d announced on the connection only" % i
                     up_at[(tag, i)] = pos
+                    if tag == "nexus": owed_up.pop(i, None)
                     if i not in feat_in: return "up:without-features connection %d announced before any features reply" % i
                     li = last_in.get(i)
                     ok = li is not None and li[0] > feat_in[i] and barrier_sent.get(i) is not None and li[2] == barrier_sent[i] and \
@@ -1187,19 +1432,38 @@ class C09(Check):
                 if level == "nexus" and self.BEH_SPELLINGS[sp] in self.HALTING:
                     if name == "ConnectionUp": up_halted.add(i)
                     if name == "PortStatus" and ps_nexus.get(i) and ps_nexus[i][-1][0] == arg: ps_nexus[i][-1][1] = True
+            elif tag == "hact":
+                lv_, name_, i, act_ = e[1:]
+                if act_ in ("disc", "close"): hdisc.add(i)
+                if act_ in ("disc", "close") or i in broken: owed_up.pop(i, None)     # dropped before it could be announced
+                if i in hact_at: hact_at[i].append(pos)
             elif tag == "hsendto":
                 which, i, d, x, ret, exp, exp_ok = e[1:]
                 if ret != (exp is not None):
-                    return "sendto:handler sendToDPID(%s) inside a Connection%s handler returned %s; most recently registered live connection: %s" % (d, which.capitalize(), ret, exp)
+                    return "sendto:handler sendToDPID(%s) inside a %s listener returned %s; most recently registered live connection: %s" % (d, {"re": "re-entrant"}.get(which, "Connection" + which.capitalize()), ret, exp)
                 wrote = pos > 0 and log[pos - 1][1] == ["sent", exp, T_BARRIER_REQ, x]
                 if wrote != bool(exp_ok):
-                    return "sendto:handler sendToDPID(%s) inside a Connection%s handler %s connection %s" % (d, which.capitalize(), "did not reach" if exp_ok else "wrote to", exp)
+                    return "sendto:handler sendToDPID(%s) inside a %s listener %s connection %s" % (d, {"re": "re-entrant"}.get(which, "Connection" + which.capitalize()), "did not reach" if exp_ok else "wrote to", exp)
             elif tag == "closed":
                 i = e[1]
                 o = ops[k]
-                cause = i in self.lost_in(o) or i in explicit_disc or i in broken or i in failed_connect or \
+                cause = i in self.lost_in(o) or i in explicit_disc or i in broken or i in failed_connect or i in hdisc or \
                         (case.get("listeners") or {}).get("up") == "disc"
                 if not cause: return "close:spurious connection %d dropped by the controller although nothing in the history lost it" % i
+        if owed_up:
+            return "up:missing connection %d got the answer to its barrier request after its features reply but was not announced" % sorted(owed_up)[0]
+        # every message that arrived on a connection which is still live (not disconnected, still selected) after the operation has been handled
+        arrived, seen = {i: 0 for i in range(ncon)}, {i: 0 for i in range(ncon)}
+        for k, o in enumerate(ops):
+            items = [(o["c"], len(o["msgs"]))] if o["op"] == "recv" else \
+                    [(it["c"], len(it.get("msgs", []))) for it in o.get("r", []) if it != "new"] if o["op"] == "round" else []
+            for c, n in items:
+                if k > 0 and c < len(obs["states"][k - 1]): arrived[c] += n
+            for e in obs["steps"][k]:
+                if e[0] == "in": seen[e[1]] += 1
+            for i, st in enumerate(obs["states"][k]):
+                if not st["disc"] and not st["closed"] and seen[i] != arrived[i]:
+                    return "arrival:unhandled connection %d is live and %d of its messages have arrived, but %d were handled" % (i, arrived[i], seen[i])
         # an EOF / error condition the task was shown must close that connection in that very round
         for k, o in enumerate(ops):
             for i in self.lost_in(o):
@@ -1213,11 +1477,19 @@ class C09(Check):
             k_up = log[up_at[("nexus", i)]][0] if announced else None                        # (by a re-entrant listener: it disconnects, or its send fails),
             act = (case.get("listeners") or {}).get("up")                                     # or if a nexus-level listener halted the announcement
             dropped = announced and act is not None and (act == "disc" or i in broken_by[k_up]) and obs["states"][k_up][i]["disc"]
+            if announced and not dropped and hact_at[i] and obs["states"][k_up][i]["disc"]:
+                # the same for the listeners of case["re"]: one of them acted on this connection during the announcing operation, before anything
+                # that follows the connection-level ConnectionUp was raised
+                p0 = up_at[("nexus", i)]
+                after = [p for p in range(p0 + 1, len(log)) if log[p][0] == k_up and log[p][1][0] in ("nexus", "con") and log[p][1][2] == i and
+                         log[p][1][1] in ("FeaturesReceived", "PortStatus")]
+                lim = after[0] if after else len(log)
+                dropped = any(log[p][0] == k_up and p < lim for p in hact_at[i])
             if skipped and not dropped and i not in up_halted:
                 return "up:nexus-con-mismatch connection %d announced on the nexus but not on the connection" % i
             # ConnectionDown is owed to the listeners on BOTH levels of an announced connection that is lost — whatever a listener on the
             # nexus made of it (Connection.disconnect does not look at the nexus-level result)
-            lost = final[i]["closed"] or (disc_by and i in disc_by[-1])
+            lost = final[i]["closed"] or (disc_by and i in disc_by[-1]) or i in hdisc
             if announced and lost and (("nexus", i) not in down_at or ("con", i) not in down_at):
                 return "down:missing connection %d was announced and is lost but no ConnectionDown was raised%s" % (
                     i, "" if ("nexus", i) not in down_at and ("con", i) not in down_at else " on the %s" % ("nexus" if ("nexus", i) not in down_at else "connection"))
@@ -1225,6 +1497,14 @@ class C09(Check):
                 # a connection dropped during the announcement gets nothing more (C09-6; on a tree without it: iff the announcement did stop there)
                 quiet = dropped and (self.variant["stop"] or (skipped and i not in up_halted))
                 want = [] if quiet else ps_in[i][ps_window_start.get(i, 0):]
+                if case.get("re") and (i in hdisc or (broken_by and i in broken_by[-1])):
+                    # a listener dropped the connection (or its send failed) somewhere along the way: what is still delivered to a connection that
+                    # is going down is left open — but nothing twice, nothing out of order, nothing that did not arrive
+                    for lvl in ("nexus", "con"):
+                        if not self.sublist(ps_ev[i][lvl], ps_in[i][ps_window_start.get(i, 0):]):
+                            return "early_ps:lost-or-reordered connection %d: port-status raised on %s %s, received since the features reply %s" % (
+                                i, lvl, ps_ev[i][lvl], ps_in[i][ps_window_start.get(i, 0):])
+                    continue
                 if "PortStatus" in (case.get("mute") or []):          # nobody listens on the nexus (so nothing is recorded or halted there)
                     if ps_ev[i]["nexus"]: return "early_ps:raised-where-nobody-listens PortStatus on nexus for connection %d" % i
                     if ps_ev[i]["con"] != want:
@@ -1288,6 +1568,16 @@ class C09(Check):
         return None
 
     @staticmethod
+    def sublist(got, want):
+        """got is want with some elements left out (order kept, nothing more often than it is in want)"""
+        p = 0
+        for x in got:
+            while p < len(want) and want[p] != x: p += 1
+            if p == len(want): return False
+            p += 1
+        return True
+
+    @staticmethod
     def lost_in(o):
         """connections for which operation `o` shows the task an EOF or an error condition"""
         if o["op"] == "lose": return [o["c"]]
@@ -1295,16 +1585,29 @@ class C09(Check):
         return []
 
     def finding_key(self, case, obs, failure):
-        return failure.split(" ")[0]
+        key = failure.split(" ")[0]
+        # C09-7: a ConnectionHandshakeComplete listener drops the connection -> ConnectionDown first, then ConnectionUp for the dead connection
+        if key in ("down:without-up", "up:after-down") and any(ev == "ConnectionHandshakeComplete" for _, ev, _ in case.get("re") or []) and \
+           any(e[0] == "hact" and e[2] == "ConnectionHandshakeComplete" for st in obs.get("steps", []) for e in st):
+            return self.HSC_KEY
+        return key
 
     def nontrivial(self, case, obs):
         return any(e[0] == "in" for st in obs.get("steps", []) for e in st)
 
     def shrink_candidates(self, case):
         ops = case["ops"]
-        for key in ("listeners", "mute", "halt"):
+        for key in ("listeners", "mute", "halt", "re"):
             if case.get(key):
                 c = dict(case); c.pop(key); yield c
+        for j in range(len(case.get("re") or []) if len(case.get("re") or []) > 1 else 0):
+            c = dict(case); c["re"] = case["re"][:j] + case["re"][j + 1:]; yield c
+        for i, o in enumerate(ops):
+            if o.get("seg"):
+                o2 = dict(o); o2.pop("seg"); c = dict(case); c["ops"] = ops[:i] + [o2] + ops[i + 1:]; yield c
+                if isinstance(o["seg"], list) and len(o["seg"]) > 1:
+                    for j in range(len(o["seg"])):
+                        o2 = dict(o); o2["seg"] = o["seg"][:j] + o["seg"][j + 1:]; c = dict(case); c["ops"] = ops[:i] + [o2] + ops[i + 1:]; yield c
         for lv, tab in sorted((case.get("beh") or {}).items()):
             for k in sorted(tab):
                 b = {l: {n: x for n, x in t.items() if (l, n) != (lv, k)} for l, t in case["beh"].items()}
@@ -1314,7 +1617,7 @@ class C09(Check):
         for i, o in enumerate(ops):
             if o["op"] == "recv" and len(o["msgs"]) > 1:
                 for j in range(len(o["msgs"])):
-                    o2 = dict(o); o2["msgs"] = o["msgs"][:j] + o["msgs"][j + 1:]
+                    o2 = dict(o); o2["msgs"] = o["msgs"][:j] + o["msgs"][j + 1:]; o2.pop("seg", None)
                     c = dict(case); c["ops"] = ops[:i] + [o2] + ops[i + 1:]; yield c
 
 CHECK = C09
